@@ -406,6 +406,10 @@ pub fn sliced_model(net: Network, theta: u32, n: usize, thresholds: &[u32]) -> C
     m.alpha.bodies = vec![BODY_CB, BODY_MULTI];
     m.alpha.max_special = 2;
     m.alpha.budgets = vec![0, 1];
+    // one upgrade at any boundary (also between two slices): what is recorded as stable must
+    // survive it and the rule must keep being applied
+    m.alpha.upgrades = vec![0];
+    m.alpha.max_upgrades = 1;
     m
 }
 
